@@ -179,6 +179,9 @@ def gen(ctx):
                               ("GetPlaylists", [("playlist", "p"), ("Last-Modified", v)]),
                               ("Queue", [("file", "f"), ("Range", v), ("Prio", v)]), ("Queue", [("file", "f"), ("duration", v)]),
                               ("Find", [("file", "f"), ("Last-Modified", v)]), ("GetEnabledTagTypes", [("tagtype", v)]),
+                              # free-text tags that accessors interpret (Song::number reads Track / Disc): every value, alone and after a first one
+                              ("Queue", [("file", "f"), ("Track", v), ("Disc", v)]), ("Find", [("file", "f"), ("Disc", "1"), ("Disc", v), ("Track", v), ("Track", "2")]),
+                              ("CurrentSong", [("file", "f"), ("Track", v + "/12"), ("Disc", v + "/" + v)]),
                               # entry-start lines with every value (an empty url is 'no song in progress' for the builder)
                               ("Queue", [("file", v)]), ("CurrentSong", [("file", v), ("Title", "t")]), ("Find", [("file", "a"), ("file", v), ("file", "b")]),
                               ("ListAllIn", [("directory", v), ("file", v), ("playlist", v), ("Last-Modified", "2024-01-02T03:04:05Z")]),
